@@ -53,12 +53,17 @@ PROPS = {
     "C05": {"suites": [("ser", 1.0)], "theorems": ["RModel.BSet.canon_ext"] + F_SERIAL, "modules": DEFAULT_MODULES + [FACTS],
             "owns": {"ser", "rd", "wrfail", "trunc", "wf", "dig", "add", "or"}},
     "C06": {"suites": [("spec", 1.0)], "theorems": ["RModel.BSet.canon_ext"] + F_SERIAL, "modules": DEFAULT_MODULES + [FACTS], "owns": {"spec", "ser", "card", "toarr"}},
-    "C09": {"suites": [("hist", 1.0), ("alg", 0.7), ("xform", 0.7), ("ser", 0.5), ("kernwf", 1.0)], "theorems": ["RModel.BSet.canon_ext"] + F_THRESH,
-            "modules": DEFAULT_MODULES + [FACTS],
+    "C09": {"suites": [("hist", 1.0), ("alg", 0.7), ("xform", 0.7), ("ser", 0.5), ("kernwf", 1.0)],
+            "theorems": ["RModel.Impl.wf_implies_validate", "RModel.Impl.validate_implies_wf_of_decoded", "RModel.BSet.canon_ext"] + F_THRESH,
+            "modules": DEFAULT_MODULES + [FACTS, "RProofs.Properties.C09"],
             "owns": {"wf", "kernwf"}},
-    "C10": {"suites": [("fuzzdec", 1.0)], "theorems": ["RModel.BSet.canon_ext"] + F_SERIAL, "modules": DEFAULT_MODULES + [FACTS], "owns": None},
-    "C14": {"suites": [("hist", 1.0), ("alg", 0.7), ("xform", 0.5)], "theorems": ["RModel.BSet.canon_ext"] + F_SERIAL,
-            "modules": DEFAULT_MODULES + [FACTS], "owns": {"size"}},
+    "C10": {"suites": [("fuzzdec", 1.0)],
+            "theorems": ["RModel.Impl.decode_shape", "RModel.Impl.decoded_valid_is_wf", "RModel.Impl.validate_implies_wf_of_decoded",
+                         "RModel.BSet.canon_ext"] + F_SERIAL,
+            "modules": DEFAULT_MODULES + [FACTS, "RProofs.Properties.C09"], "owns": None},
+    "C14": {"suites": [("hist", 1.0), ("alg", 0.7), ("xform", 0.5)],
+            "theorems": ["RModel.Impl.readme_bound", "RModel.Impl.bound_function", "RModel.BSet.canon_ext"] + F_SERIAL,
+            "modules": DEFAULT_MODULES + [FACTS, "RProofs.Properties.C14"], "owns": {"size"}},
     "C15": {"suites": [("nbr", 1.0), ("kernq", 0.3)], "theorems": L1_NBR, "owns": {"nv", "pv", "nav", "pav", "kern"}},
     "C16": {"suites": [("xform", 1.0)], "theorems": L1_XFORM, "owns": {"off", "off32", "sflip", "eq"}},
 }
